@@ -109,6 +109,7 @@ type Axiom struct {
 type ContractDB struct {
 	Funcs  map[string]*Contract // key: pkgpath.FuncKey
 	Ifaces map[string]*Contract // key: pkgpath.Iface.Method
+	FuncTypes map[string]*Contract // key: pkgpath.TypeName (named function types)
 	Types  map[string]*TypeSpec // key: pkgpath.Type
 	Specs  map[string]*SpecFunc
 	Axioms []*Axiom
@@ -119,7 +120,7 @@ type ContractDB struct {
 }
 
 func NewContractDB() *ContractDB {
-	return &ContractDB{Funcs: map[string]*Contract{}, Ifaces: map[string]*Contract{}, Types: map[string]*TypeSpec{}, Specs: map[string]*SpecFunc{}, Globals: map[string]string{}, GhostFields: map[string]string{}}
+	return &ContractDB{Funcs: map[string]*Contract{}, Ifaces: map[string]*Contract{}, FuncTypes: map[string]*Contract{}, Types: map[string]*TypeSpec{}, Specs: map[string]*SpecFunc{}, Globals: map[string]string{}, GhostFields: map[string]string{}}
 }
 
 func parseProps(s string) (props []string, rest string) {
@@ -166,7 +167,7 @@ func (db *ContractDB) LoadContractFile(file, pkgPath string) {
 		kw := fields[0]
 		rest := strings.TrimSpace(line[len(kw):])
 		switch kw {
-		case "func", "extern", "iface":
+		case "func", "extern", "iface", "functype":
 			name, props, pnames, rnames := parseFuncHeader(rest)
 			c := &Contract{Func: name, Props: props, File: file, ParamNames: pnames, ResultNames: rnames}
 			curType = nil
@@ -189,6 +190,11 @@ func (db *ContractDB) LoadContractFile(file, pkgPath string) {
 				c.Trusted = true
 				c.Pkg, c.Func = splitQualified(name)
 				db.Ifaces[c.Key()] = c
+			case "functype":
+				c.Extern = true
+				c.Trusted = true
+				c.Pkg, c.Func = splitQualified(name)
+				db.FuncTypes[c.Key()] = c
 			}
 		case "type":
 			cur = nil
